@@ -171,7 +171,11 @@ fn script_for(term: &mut Term, frame: &[u8], plan: &Value) -> (Vec<Vec<u8>>, Str
     // reading has no print lines
     let one_shot = matches!(cf, (0x06, 0x00) | (0x0f, 0xa1) | (0x06, 0x1b));
     for k in 0..plan.get("inter").and_then(|c| c.as_u64()).filter(|_| !is_query && !one_shot).unwrap_or(0) {
-        frames.push(intermediate_n(term.next_ex + k));
+        // (the plan may name the status byte; otherwise it rotates)
+        match plan.get("inter_status").and_then(|v| v.as_u64()) {
+            Some(st) => frames.push(vec![0x04, 0xff, 0x01, st as u8]),
+            None => frames.push(intermediate_n(term.next_ex + k)),
+        }
     }
     for _ in 0..plan.get("lines").and_then(|c| c.as_u64()).filter(|_| !is_query && !one_shot && cf != (0x06, 0xc0)).unwrap_or(0) {
         frames.push([&[0x06u8, 0xd1, 13, 0][..], &b"receipt line"[..]].concat());
@@ -179,7 +183,8 @@ fn script_for(term: &mut Term, frame: &[u8], plan: &Value) -> (Vec<Vec<u8>>, Str
     let status_from = |s: &Value, receipt: Option<usize>| -> p::StatusInformation {
         let g = |k: &str| s.get(k).filter(|v| !v.is_null()).map(|v| from_digits(v) as usize);
         p::StatusInformation {
-            result_code: Some(0),
+            // (the host's verdict: 0 unless the plan says the payment was declined)
+            result_code: Some(plan.get("status_result").and_then(|v| v.as_u64()).unwrap_or(0) as u8),
             amount: g("amount"),
             trace_number: g("trace"),
             date: g("date"),
